@@ -1045,3 +1045,124 @@ Section Examples.
     np_stft_plan 200 80 false true 1000 = Some (13, 60, 100) /\ np_stft_plan 200 80 true false 100 = None.
   Proof. split; reflexivity. Qed.
 End Examples.
+
+(** * The entry points, end to end *)
+Section MainSpecs.
+  Context {L : Lib}.
+  Variable Cfg : Type.
+  Variables (fs : string -> option string) (load : string -> option Cfg) (shape : Cfg -> CfgShape Cfg).
+  Variables (bc : Cfg -> Build (Comp L)) (bp : Cfg -> Build (Pre L)) (bq : Cfg -> Build (Post L)).
+
+  (* compute-feats-from-kaldi-tables with configurations that parse and build, tables that open *)
+  Lemma kaldi_main_spec_l (a : KArgs) cc pc qc c pl ps ql qs items (r0 : Rng L) :
+    config_type Cfg fs load (ka_computer a) = Some cc ->
+    opt_config Cfg fs load (ka_preprocess a) = Some pc ->
+    opt_config Cfg fs load (ka_postprocess a) = Some qc ->
+    bc cc = Built c ->
+    config_elements Cfg shape pc = Some pl -> build_all bp pl = Built ps ->
+    config_elements Cfg shape qc = Some ql -> build_all bq ql = Built qs ->
+    kaldi_main Cfg fs load shape bc bp bq false a (Some items) true r0 =
+    match kaldi_spec (ka_opts a) ps c qs items
+                     (match k_seed (ka_opts a) with Some z => seed_rng z | None => r0 end) with
+    | (out, _, None) => KExit (if Zlength out =? 0 then 1 else 0) out
+    | (out, _, Some e) => KExc e out
+    end.
+  Proof.
+    intros H1 H2 H3 H4 H5 H6 H7 H8. unfold kaldi_main.
+    rewrite H1, H2, H3, H4, H5, H6, H7, H8. cbn [negb].
+    assert (Hw : kaldi_seed (ka_opts a) (mkKW r0 []) =
+                 mkKW (match k_seed (ka_opts a) with Some z => seed_rng z | None => r0 end) []).
+    { unfold kaldi_seed, kw_seed. destruct (k_seed (ka_opts a)); reflexivity. }
+    rewrite Hw, kaldi_tool_spec_l.
+    destruct (kaldi_spec (ka_opts a) ps c qs items _) as [[out r'] [e|]]; cbn [kw_out].
+    - reflexivity.
+    - rewrite kaldi_exit_l. reflexivity.
+  Qed.
+
+  (* an unparsable configuration: argparse's exit status 2, nothing written *)
+  Lemma kaldi_main_unparsable_l (a : KArgs) wav writable (r0 : Rng L) d :
+    config_type Cfg fs load (ka_computer a) = None ->
+    kaldi_main Cfg fs load shape bc bp bq d a wav writable r0 = KExit 2 [].
+  Proof. intros H. unfold kaldi_main. rewrite H. reflexivity. Qed.
+
+  (* an unknown alias / bad mapping for the computer: exit status 1, nothing written *)
+  Lemma kaldi_main_bad_computer_l (a : KArgs) cc pc qc wav writable (r0 : Rng L) d :
+    config_type Cfg fs load (ka_computer a) = Some cc ->
+    opt_config Cfg fs load (ka_preprocess a) = Some pc ->
+    opt_config Cfg fs load (ka_postprocess a) = Some qc ->
+    bc cc = BuildValueError ->
+    kaldi_main Cfg fs load shape bc bp bq d a wav writable r0 = KExit 1 [].
+  Proof. intros H1 H2 H3 H4. unfold kaldi_main. rewrite H1, H2, H3, H4. reflexivity. Qed.
+End MainSpecs.
+
+Lemma NoDup_app_snoc {A} (l : list A) x : NoDup l -> ~ In x l -> NoDup (l ++ [x]).
+Proof.
+  induction l as [|y l IH]; intros ND HI; cbn.
+  - constructor; [intros [] | constructor].
+  - inversion ND as [|? ? Hy ND']; subst. constructor.
+    + intros H. apply in_app_or in H as [H|[H|[]]]; [exact (Hy H) | subst; apply HI; left; reflexivity].
+    + apply IH; [exact ND' | intros H; apply HI; right; exact H].
+Qed.
+
+(* the ids read from the map file are distinct (the tool refuses a repeated id) *)
+Lemma torch_map_loop_nodup : forall lines n acc m,
+    torch_map_loop lines n acc = MapOk m -> NoDup (map fst acc) -> NoDup (map fst m).
+Proof.
+  induction lines as [|line lines IH]; intros n acc m H ND.
+  - cbn in H. inversion H; subst. exact ND.
+  - cbn [torch_map_loop] in H.
+    destruct (negb (truthy_str (strip line))); [eapply IH; eassumption|].
+    destruct (Zlength (split_sp (strip line)) <? 2); [discriminate|].
+    destruct (py_getitem (split_sp (strip line)) 0) as [utt|]; [|discriminate].
+    destruct (dict_mem utt acc) eqn:E; [discriminate|].
+    eapply IH; [exact H|].
+    rewrite (dict_set_new _ _ _ E), map_app. cbn [map fst].
+    apply NoDup_app_snoc; [exact ND|].
+    intros HI. unfold dict_mem in E. apply mem_str_in in HI. congruence.
+Qed.
+
+Section TorchMainSpec.
+  Context {L : Lib}.
+  Variable Cfg : Type.
+  Variables (fs : string -> option string) (load : string -> option Cfg) (shape : Cfg -> CfgShape Cfg).
+  Variables (bc : Cfg -> Build (Comp L)) (bp : Cfg -> Build (Pre L)) (bq : Cfg -> Build (Post L)).
+  Variables (read_signal : string -> string -> option (Arr (Sig L))) (sig_len : Sig L -> Z).
+  Hypothesis sig_len_nonneg : forall s, 0 <= sig_len s.
+
+  (* signals-to-torch-feat-dir with configurations that parse, build and have PyTorch ports,
+     a well-formed map, and utterances that can be read and have the requested channel *)
+  Lemma torch_main_spec_l (a : TArgs) fresh r cc pc qc comp pl pres ptpres ql posts m F :
+    (match ta_computer a with
+     | None => Some None
+     | Some s => match config_type Cfg fs load s with Some c => Some (Some c) | None => None end
+     end) = Some cc ->
+    opt_config Cfg fs load (ta_preprocess a) = Some pc ->
+    opt_config Cfg fs load (ta_postprocess a) = Some qc ->
+    torch_map_loop (ta_map a) 0 [] = MapOk m ->
+    (match cc with
+     | None => Some (Some None)
+     | Some c => match bc c with
+                 | Built computer => match conv_comp computer with
+                                     | Some pc => Some (Some (Some pc))
+                                     | None => Some None
+                                     end
+                 | _ => None
+                 end
+     end) = Some (Some comp) ->
+    config_elements Cfg shape pc = Some pl -> build_all bp pl = Built pres ->
+    conv_all conv_pre pres = Some ptpres ->
+    config_elements Cfg shape qc = Some ql -> build_all bq ql = Built posts ->
+    let seed := torch_seed_choice (ta_seed a) fresh in
+    let ds := torch_dataset a seed m ptpres comp (map conv_post posts) in
+    Forall2 (torch_stored read_signal a seed m ptpres comp (map conv_post posts)) (td_utt_path ds) F ->
+    torch_main Cfg fs load shape bc bp bq read_signal sig_len a fresh r =
+    TExit 0 (map (file_of (ta_prefix a) (ta_suffix a)) F)
+          (if is_some (ta_manifest a) then map fst F else []).
+  Proof.
+    intros H1 H2 H3 H4 H5 H6 H7 H8 H9 H10 seed ds HF. unfold torch_main.
+    rewrite H1, H2, H3, H4, H5, H6, H7, H8, H9, H10.
+    apply (torch_tool_spec_l read_signal sig_len sig_len_nonneg a seed m ptpres comp (map conv_post posts) F r).
+    - eapply torch_map_loop_nodup; [exact H4 | constructor].
+    - exact HF.
+  Qed.
+End TorchMainSpec.
